@@ -23,7 +23,7 @@ if grep -q overlay "$D/demo_cmd.txt"; then
   echo "{\"Replace\":{\"$WT/internal/sqlite/sqlite0/sqlite3.c\":\"/verif/third_party/sqlite/sqlite3.c\",\"$WT/internal/sqlite/sqlite0/sqlite3.h\":\"/verif/third_party/sqlite/sqlite3.h\"}}" > /tmp/ov-$$.json
   OV="-overlay /tmp/ov-$$.json"
 fi
-RUN=${DEMO_RUN:-TestSeedDemo}
+RUN=${DEMO_RUN:-"Test(ZZ)?SeedDemo"}
 cd "$WT"
 echo "== demo WITHOUT patch" | tee -a "$OUT"
 $GO test $OV -vet=off -count=1 -run "$RUN" ./$DEMODIR/ >> "$OUT" 2>&1; A=$?
